@@ -161,6 +161,7 @@ class Module(object):
         self.tree = ast.parse(src, filename=path)
         from sa import alpha
         self.alpha_renames = alpha.normalise(self.tree, relpath)
+        self.fn_status = getattr(self.tree, '_sa_status', {})   # key ('Class.method') -> (status, distance, limit)
         self.bindings = {}   # name -> list of binding tuples
         self.body = []       # py3 view, flattened top-level statements
         for parent in ast.walk(self.tree):
